@@ -82,6 +82,7 @@ func runC09(p *Prog, r *Report) {
 	c.scopes()
 	c.envelope()
 	c.vocabulary()
+	exactNumberSites(p, r, "R9.6-untyped-decode-sites")
 }
 
 func (c *c9ctx) anchors() bool {
@@ -639,7 +640,7 @@ func (c *c9ctx) envelope() {
 		if _, isNil := t.Vs[1].(tNil); !isNil {
 			s.abort("encoder returns an error on this path")
 		}
-		dcell := &tcell{zeroOf(polT)}
+		dcell := &tcell{staleObject(polT)}
 		derr := s.callFn(nil, &tFn{Obj: dec, Recv: &tPtr{dcell}, RecvCell: dcell}, []tv{t.Vs[0]}, false, nil)
 		return &tTuple{[]tv{dcell.v, derr}}, t.Vs[0]
 	})
@@ -669,6 +670,9 @@ func (c *c9ctx) envelope() {
 				continue
 			}
 			kept = append(kept, d)
+		}
+		if strings.Contains(t.Vs[0].ts(), "stale.") {
+			kept = append(kept, "the decoded policy still holds what the receiver held before decoding (decoding must replace, not merge)")
 		}
 		r.Check(len(kept) == 0, rule, cs, p.pos(dec.Pos()), "decode(encode(policy)) = the same effect, annotations (by key), scopes and ordered conditions"+noteSuffix(o.Notes),
 			"decode(encode(policy)) differs from the original: "+strings.Join(kept, "; ")+" [decoded: "+clip(t.Vs[0].ts(), 400)+"]")
@@ -708,7 +712,7 @@ func (c *c9ctx) policySet() {
 		if !ok || len(t.Vs) != 2 {
 			s.abort("encoder result %s", res.ts())
 		}
-		dcell := &tcell{zeroOf(psT)}
+		dcell := &tcell{staleObject(psT)}
 		derr := s.callFn(nil, &tFn{Obj: dec, Recv: &tPtr{dcell}, RecvCell: dcell}, []tv{t.Vs[0]}, false, nil)
 		return &tTuple{[]tv{dcell.v, derr}}, t.Vs[0]
 	})
@@ -765,6 +769,10 @@ func (c *c9ctx) policySet() {
 				}
 			}
 		}
+		if strings.Contains(t.Vs[0].ts(), "stale.") {
+			okShape = false
+			msg = "the decoded set still holds what the receiver held before decoding (decoding must replace the contents, not merge into them); " + msg
+		}
 		n++
 		r.Check(okShape, rule, cs, p.pos(dec.Pos()), "decode(encode(set)) has one policy per original policy, under the same id, with the same AST"+noteSuffix(o.Notes),
 			"decode(encode(set)) is not the original set: "+msg)
@@ -783,4 +791,16 @@ func outsideVocabulary(assume map[string]string) bool {
 		}
 	}
 	return false
+}
+
+// staleObject: a value of struct type T whose every field holds an unrelated symbolic value ("what the receiver held
+// before decoding"); a decoder must not let any of it survive.
+func staleObject(T types.Type) tv {
+	o := &tObj{T: T, F: map[string]*tcell{}}
+	st := structOf(T)
+	for i := 0; i < st.NumFields(); i++ {
+		f := st.Field(i)
+		o.F[f.Name()] = &tcell{&tSym{Name: "stale." + f.Name(), T: f.Type()}}
+	}
+	return o
 }
